@@ -218,7 +218,7 @@ fn scenarios(prop: &str, rng: &mut Rng, thorough: bool) -> Vec<Scenario> {
                 v.push(Scenario { name: format!("lzma2w-dropnofinish-{size}-w{workers}"), kind: "lzma2w", input: data.clone(), writes: parts.clone(), finish: false, ..base.clone() });
                 v.push(Scenario { name: format!("lzipw-dropnofinish-{size}-w{workers}"), kind: "lzipw", input: data.clone(), writes: parts, finish: false, ..base.clone() });
             }
-            if prop == "C09" {
+            if prop == "C09" || prop == "C10" {
                 // corrupt / truncated inputs: the call must return an error, never block
                 let mut muts: Vec<(String, Vec<u8>, &'static str)> = Vec::new();
                 if l2.len() > 10 {
